@@ -328,6 +328,9 @@ func runPrintPure(p *Program, r *RuleResult) {
 						}
 					}
 				}
+				if bad == "" && !p.readOnlyFn(fn) {
+					bad = "it is not read-only (" + p.roWhy[fn] + ")"
+				}
 				construct := "printer:" + mname
 				if bad != "" {
 					r.add(fnName(fn), construct, Violated, p.pos(fn.Pos()), bad+": the printed text is no longer a function of the term alone (a cached text survives substitutions)")
